@@ -28,6 +28,13 @@ def gen_cases(run: Run, n: int):
         g.leak_p = 0.0 if len(cases) % 2 == 0 else 0.15
         ins, outs = g.program()
         cases.append(B.Case(ins, outs, rng.random() < 0.3, {"legal": g.leak_p == 0.0}))
+        # every third program: ONE value computed by a control-flow node is built on its own first (same process, same Vars) - what
+        # that build named or compiled must not show in the build that is judged
+        cf = [v for v in list(outs.values()) + list(getattr(g, "last_pool", []))
+              if any(isinstance(a, B.AttrGraph) for a in v._op.attrs.get_fields().values()) and isinstance(v.type, B.Tensor) and v.type.shape is not None]
+        if cf and len(cases) % 3 == 0:
+            cases[-1].pre = (dict(ins), {"y": rng.choice(cf)}, False)
+            cases[-1].meta["after_build_of_one_control_flow_value"] = True
         cases[-1].meta["snapshot_problems"] = B.snapshot_problems(g.snapshots)
         cases[-1].meta["oneshot_problems"] = list(g.oneshot_problems)
     # scope-tree skeletons (shared with C04): a value (every 2nd time an initializer) created in one scope and used in others
